@@ -50,7 +50,8 @@ class D(Driver):
     rule = (
         "cases: (a) picosvg documents produced by converting generated sources (groups kept for opacity, evenodd-origin shapes, "
         "gradients) whose root viewBox has a random origin (negative, zero, positive) and size so that shapes lie inside, outside, "
-        "straddle every side and corner or touch the border; SVG.clip_to_viewbox (copy and in-place) is judged by the reference renderer: "
+        "straddle every side and corner or touch the border; SVG.clip_to_viewbox (copy and in-place) and the command line route "
+        "(python -m picosvg.picosvg --clip_to_viewbox on the source, stdin/file in, stdout/--output_file out) are judged by the reference renderer: "
         "inside the viewBox the composited colour is unchanged, outside it is empty, samples uniform + biased to the viewBox border and "
         "corners, outside the band of shape edges and of the viewBox rectangle; (b) SVGShape.bounding_box / SVG.bounding_box on shapes with "
         "curves whose extrema lie strictly inside, arcs, degenerate shapes and multi-shape documents, judged against analytic extrema. "
@@ -60,20 +61,24 @@ class D(Driver):
     assumptions = ("reference renderer (ref/render.py) and analytic extrema (ref/pathgeom.tight_bbox); slack 3e-5*(1+|coord|) for Skia's float32, 3e-4*r for arcs",)
     anchors = (
         ("picosvg.svg", "SVG.clip_to_viewbox"),
+        ("picosvg.picosvg", "_run"),
         ("picosvg.geometric_types", "Rect.intersection"),
         ("picosvg.geometric_types", "Rect.union"),
         ("picosvg.svg", "SVG.bounding_box"),
         ("picosvg.svg_types", "SVGShape.bounding_box"),
         ("picosvg.svg_pathops", "bounding_box"),
     )
+    optional_anchors = ("picosvg._run",)  # runs in a child process; its reach is the cli_clip.judged floor
     deciding_monitors = ("clip_to_viewbox", "bounding_box", "Rect.intersection", "Rect.union")
     nt_floor = {"quick": 200, "thorough": 4000}
-    feature_floors = {"clipped.touches_border": 40, "clipped.fully_outside": 40, "clipped.group_partly_clipped_away": 30}
+    feature_floors = {"clipped.touches_border": 40, "clipped.fully_outside": 40, "clipped.group_partly_clipped_away": 30,
+                      "cli_clip.judged": 20, "cli_clip.judged_with_paint_outside": 10}
     time_budget = {"quick": 150, "thorough": 1200}
 
     def cases(self, tier, seed):
         n = 40 if tier == "quick" else 900
-        return [("clip", seed, k, 8) for k in range(n)] + [("bbox", seed, k, 150) for k in range(n // 4)]
+        ncli = 8 if tier == "quick" else 60
+        return [("clip", seed, k, 8) for k in range(n)] + [("clipcli", seed, k, 5) for k in range(ncli)] + [("bbox", seed, k, 150) for k in range(n // 4)]
 
     def setup_worker(self, tier, seed):
         from picosvg import svg_types as T
@@ -246,7 +251,10 @@ class D(Driver):
         for k, v in feats.items():
             if k in ("touches_border", "fully_outside", "group_partly_clipped_away"):
                 bump(res["features"], "clipped." + k, v)  # only documents whose clipping returned
-        m = re.search(r"<g(?![^>]*opacity)[^>]*>|<g[^>]*>\s*(<path[^>]*/>)?\s*</g>", out)
+        self._judge_clip_render(res, pico, out, vb, rng, {"kind": "clip", "doc": pico}, "library")
+
+    def _judge_clip_render(self, res, pico, out, vb, rng, replay, entry):
+        """pico: the unclipped picosvg; out: what claims to be pico clipped to its viewBox."""
         try:
             a, b = RR.build(pico), RR.build(out)
         except RR.RefError:
@@ -304,18 +312,81 @@ class D(Driver):
                 ok = not cb
             if not ok:
                 mech = self._clip_engine_fault(pico, p)
-                res["viol"].append(dict(rule="clip_render", sig="clip_to_viewbox:" + ("inside_changed" if inside else "paint_outside_viewbox") + (f":{mech}" if mech else ""), mech=mech,
-                                        msg=f"viewBox {vb}: at {p} ({'inside' if inside else 'outside'}) input renders {ca}, clipped output renders {cb}\nINPUT: {pico[:1500]}\nOUTPUT: {out[:1500]}",
-                                        replay={"kind": "clip", "doc": pico}))
+                res["viol"].append(dict(rule="clip_render", sig=("cli:" if entry == "CLI" else "") + "clip_to_viewbox:" + ("inside_changed" if inside else "paint_outside_viewbox") + (f":{mech}" if mech else ""), mech=mech,
+                                        msg=f"[{entry}] viewBox {vb}: at {p} ({'inside' if inside else 'outside'}) input renders {ca}, clipped output renders {cb}\nINPUT: {pico[:1500]}\nOUTPUT: {out[:1500]}",
+                                        replay=replay))
                 return
         bump(res["counters"], "clip_points_inside", kept_in)
         bump(res["counters"], "clip_points_outside", kept_out)
         if straddle:
             bump(res["counters"], "docs_with_paint_outside")
         if straddle and kept_in >= 10 and kept_out >= 10:
-            res["nt"].append(h8(pico))
+            res["nt"].append(h8(entry, pico))
+        if entry == "CLI":
+            bump(res["features"], "cli_clip.judged")
+            if straddle:
+                bump(res["features"], "cli_clip.judged_with_paint_outside")
         if res["sample"] is None and straddle:
             res["sample"] = {"pico_document": pico[:1200], "viewBox": vb}
+
+    def _clipcli_case(self, rng, res):
+        """The command line route: python -m picosvg.picosvg --clip_to_viewbox on the *source* document (stdin or
+        file, stdout or --output_file).  What it prints must be a picosvg that renders as the source's picosvg
+        does inside the viewBox and paints nothing outside - the same oracle as the library route."""
+        import os, shutil, subprocess, sys, tempfile
+        from picomon import bootstrap
+
+        src_doc, feats, vb = self._pico_doc(rng)
+        st, pico = conv.convert(src_doc, ndigits=3)
+        if st != "ok":
+            bump(res["counters"], "source_convert_exception")
+            return
+        res["evals"] += 1
+        bump(res["features"], "cli_clip.runs")
+        env = dict(os.environ)
+        env["PYTHONPATH"] = os.path.join(bootstrap.repo_root(), "src")
+        env["PYTHONUTF8"] = "1"
+        tmp = tempfile.mkdtemp(prefix="picomon-c19cli-", dir=os.environ.get("VERIF_SCRATCH", "/var/tmp"))
+        try:
+            args = [sys.executable, "-m", "picosvg.picosvg", rng.choice(("--clip_to_viewbox", "--clip_to_viewbox=true", "--clip_to_viewbox"))]
+            if rng.random() < 0.3:
+                args.append(rng.choice(("--drop_unsupported", "--allow_text", "--noallow_text")))
+            outp = os.path.join(tmp, "out.svg")
+            use_outfile = rng.random() < 0.5
+            if use_outfile:
+                args += ["--output_file", outp]
+            inp = None
+            if rng.random() < 0.5:
+                inf = os.path.join(tmp, "in.svg")
+                with open(inf, "w", encoding="utf-8") as fh:
+                    fh.write(src_doc)
+                args.append(inf)
+            else:
+                inp = src_doc
+            try:
+                p = subprocess.run(args, input=inp, capture_output=True, text=True, encoding="utf-8", timeout=180, env=env)
+            except subprocess.TimeoutExpired:
+                bump(res["counters"], "cli_clip_timeout")
+                return
+            if p.returncode != 0:
+                bump(res["counters"], "cli_clip_failed")
+                return
+            out = open(outp, encoding="utf-8").read() if use_outfile else p.stdout
+        finally:
+            shutil.rmtree(tmp, ignore_errors=True)
+        rp = {"kind": "clipcli", "doc": src_doc, "args": args[3:4]}
+        try:
+            chk = self.SVG.fromstring(out).checkpicosvg()
+        except Exception as e:
+            if events.is_harness_exc(e):
+                raise
+            res["viol"].append(dict(rule="not_picosvg", sig="cli:clip_to_viewbox:unparsable_output", msg=f"CLI {args[3:]} printed something that does not parse: {e!r}\n{out[:600]}", replay=rp))
+            return
+        if chk:
+            res["viol"].append(dict(rule="not_picosvg", sig="cli:clip_to_viewbox:not_picosvg", msg=f"CLI {args[3:]} output fails checkpicosvg: {chk}\n{out[:800]}", replay=rp))
+            return
+        attach.count("clip_to_viewbox")
+        self._judge_clip_render(res, pico, out, vb, rng, rp, "CLI")
 
     def _clip_engine_fault(self, pico, point):
         """Attribution: re-run the clipping with the C13 pathop monitor judging every boolean
@@ -419,6 +490,8 @@ class D(Driver):
         for _ in range(n):
             if kind == "clip":
                 self._clip_case(rng, res)
+            elif kind == "clipcli":
+                self._clipcli_case(rng, res)
             else:
                 self._bbox_case(rng, res)
         for ev in events.drain():
@@ -427,6 +500,25 @@ class D(Driver):
             bump(res["counters"], kk, v)
         res["nt"] = list(res["nt"]) + events.take_nt()
         return res
+
+    def _clipcli_replay(self, rp, res):
+        import os, subprocess, sys
+        from picomon import bootstrap
+
+        env = dict(os.environ)
+        env["PYTHONPATH"] = os.path.join(bootstrap.repo_root(), "src")
+        env["PYTHONUTF8"] = "1"
+        try:
+            st, pico = conv.convert(rp["doc"], ndigits=3)
+            p = subprocess.run([sys.executable, "-m", "picosvg.picosvg", "--clip_to_viewbox"], input=rp["doc"], capture_output=True, text=True, encoding="utf-8", timeout=180, env=env)
+            if st != "ok" or p.returncode != 0:
+                return
+            a = RR.build(pico)
+            self._judge_clip_render(res, pico, p.stdout, a.viewbox, random.Random(0), rp, "CLI")
+        except Exception as e:
+            if events.is_harness_exc(e):
+                raise
+            res["viol"].append(dict(rule="exception", msg=repr(e)))
 
     def replay(self, rp):
         res = new_result()
@@ -449,6 +541,8 @@ class D(Driver):
                         break
             except Exception as e:
                 res["viol"].append(dict(rule="exception", msg=repr(e)))
+        elif rp.get("kind") == "clipcli":
+            self._clipcli_replay(rp, res)
         elif rp.get("kind") == "rect":
             try:
                 getattr(self.Rect(*rp["a"]), rp["op"])(self.Rect(*rp["b"]))
